@@ -279,6 +279,7 @@ func checkSequence(c *vm.Ctx, r *vm.Rand, spy *poolSpy, big bool) {
 		return
 	}
 	c.Cover("sequence.ok")
+	c.Sample("sequence", wit(-1)())
 	if k >= 20 {
 		c.Cover("sequence.long")
 	}
